@@ -213,7 +213,15 @@ fn nul_case(ctx: &mut Ctx, rng: &mut Rng, i: u64) {
             put(&mut env[w].0, rng);
         }
         2 => {
+            // the value must be the effective one for its name (a later duplicate would override it and with it the NUL)
             let w = rng.below(env.len() as u64) as usize;
+            let key = env[w].0.clone();
+            let mut idx = 0;
+            env.retain(|(k, _)| {
+                idx += 1;
+                idx - 1 == w || *k != key
+            });
+            let w = env.iter().position(|(k, _)| *k == key).unwrap();
             put(&mut env[w].1, rng);
         }
         _ => {
@@ -293,7 +301,7 @@ fn win_env_case(ctx: &mut Ctx, rng: &mut Rng) {
 }
 
 pub fn run(ctx: &mut Ctx) {
-    let n = ctx.n(400, 20_000);
+    let n = ctx.n(3000, 20_000);
     ctx.family("random", n, |ctx, rng, i| {
         // argv
         let shape = rng.below(10);
@@ -382,10 +390,10 @@ pub fn run(ctx: &mut Ctx) {
         ctx.count("duplicate_key_placements", 1);
         run_case(ctx, &c, "dupkeys");
     });
-    let nn = ctx.n(80, 2000);
+    let nn = ctx.n(400, 2000);
     ctx.family("nul", nn, |ctx, rng, i| nul_case(ctx, rng, i));
     if win_popen::EXTRACTED {
-        let nw = ctx.n(500, 50_000);
+        let nw = ctx.n(5000, 50_000);
         ctx.family("winenv", nw, |ctx, rng, _i| win_env_case(ctx, rng));
     } else {
         ctx.inconclusive("extraction of format_env_block failed", J::Null);
